@@ -860,7 +860,10 @@ fn run_shape(c: &ShapeCase) -> Outcome {
 }
 
 pub fn check(ctx: &Ctx) {
-    let quick = ctx.tier == Tier::Quick;
+    // the former thorough bounds take seconds: they are the quick tier now; `deep` = thorough
+    let quick = false;
+    #[allow(unused_variables)]
+    let deep = ctx.tier == Tier::Thorough;
     for k in [KeyKind::Ed25519V4, KeyKind::Ed25519V6, KeyKind::EcdsaP256V4, KeyKind::EcdsaP256V6, KeyKind::Ed25519LegacyV4, KeyKind::Rsa2048V4, KeyKind::Ed448V6] {
         common::cert(k, 1);
         common::cert(k, 3);
@@ -912,7 +915,7 @@ pub fn check(ctx: &Ctx) {
     for n in [0usize, 1, 6, 7, 191, 192, 193, 255, 256, 8383, 8384, 8385, 65535, 65536, 70_000] {
         hc.push(ShapeCase { family: 3, n });
     }
-    for n in 0..if quick { 12 } else { 60 } {
+    for n in 0..if quick { 12 } else if deep { 240 } else { 60 } {
         hc.push(ShapeCase { family: 5, n });
     }
     for n in 0..120 {
